@@ -216,5 +216,12 @@ func genScript(t *rapid.T, c Chain) lab.RespScript {
 	r.Body = payload(n, byte(rapid.IntRange(0, 255).Draw(t, "respsalt")))
 	r.BodyLen = n
 	r.Parts = partition(t, n, 4, "resp")
+	if rapid.IntRange(0, 5).Draw(t, "interim") == 0 {
+		r.Interim, r.InterimCode = true, rapid.SampledFrom([]int{103, 103, 100, 102}).Draw(t, "interim_code")
+	}
+	if r.Framing == "chunked" && rapid.IntRange(0, 4).Draw(t, "trailers") == 0 {
+		r.Trailer = []lab.KV{{K: "X-Checksum", V: "crc=77"}, {K: "Grpc-Status", V: "0"}}[:rapid.IntRange(1, 2).Draw(t, "ntrailers")]
+		r.TrailerAnnounced = rapid.Bool().Draw(t, "trailer_announced")
+	}
 	return r
 }
